@@ -138,6 +138,15 @@ def compile_col_expr(
         if (partition_by := expr.context_kwargs.get("partition_by")) is not None:
             partition_by = [compile_col_expr(pb, name_in_df, op_kwargs=op_kwargs) for pb in partition_by]
 
+        if (
+            expr.op.ftype in (Ftype.AGGREGATE, Ftype.WINDOW)
+            and len(args) > 0
+            and not any(isinstance(node, Col) for node in expr.args[0].iter_subtree_postorder())
+        ):
+            # a literal is a single value for polars: aggregating or shifting it must see
+            # one value per row (of the group)
+            args[0] = pl.repeat(args[0], pl.len())
+
         arrange = expr.context_kwargs.get("arrange")
         if arrange:
             order_by, descending, nulls_last = zip(
